@@ -52,9 +52,37 @@ func CallMV(path []int, f reg.F, d int) reg.R { return T{1}.MV(path, f, d) }
 //go:noinline
 func CallMP(path []int, f reg.F, d int) reg.R { return (&T{2}).MP(path, f, d) }
 
+// G is a generic type: its methods have instantiation brackets in
+// their runtime names.
+type G[T any] struct{ v T }
+
+//go:noinline
+func (g *G[T]) M(path []int, f reg.F, d int) reg.R {
+	if len(path) == 0 {
+		return f(d)
+	}
+	return reg.Table[path[0]](path[1:], f, d)
+}
+
+//go:noinline
+func CallG(path []int, f reg.F, d int) reg.R { return (&G[string]{"x"}).M(path, f, d) }
+
+//go:noinline
+func GenericFunc[T any](v T, path []int, f reg.F, d int) reg.R {
+	if len(path) == 0 {
+		return f(d)
+	}
+	return reg.Table[path[0]](path[1:], f, d)
+}
+
+//go:noinline
+func CallGF(path []int, f reg.F, d int) reg.R { return GenericFunc(1, path, f, d) }
+
 func init() {
 	reg.Register("pa.N", N)
 	reg.Register("pa.O>inl", O)
 	reg.Register("pa.CallMV>T.MV", CallMV)
 	reg.Register("pa.CallMP>(*T).MP", CallMP)
+	reg.Register("pa.CallG>(*G[T]).M", CallG)
+	reg.Register("pa.CallGF>GenericFunc[T]", CallGF)
 }
